@@ -4,11 +4,11 @@
    ciphertext of a packet protected per RFC 9001 5.3-5.4 are recovered exactly) and C02_one_rtt_datagram (the session that holds the
    sender's keys adds exactly the data of the packet's STREAM frames to its output); key selection across key updates:
    C02_key_phase_*; packet numbers: C16; key schedule: C15; frames: C17; CRYPTO reassembly: C02_crypto_frames_any_order.
-   Handshake and Initial packets: C02_handshake_packet_extracted, C02_initial_packet_extracted.  0-RTT packets, connection-ID matching and Retry are decided by the reference sender and the
+   Handshake and Initial packets: C02_handshake_packet_extracted, C02_initial_packet_extracted; 0-RTT packets: C02_zero_rtt_packet_extracted, C02_zero_rtt_datagram.  The selection of the early keys (open finding),  connection-ID matching and Retry are decided by the reference sender and the
    correspondence of this model with the implementation (tools/props/c02.py). *)
 From Coq Require Import ZArith List Bool.
 From Coq Require Import Permutation.
-Require Import PyLib SuiteTypes Crypto KeySchedule QuicKeys QuicPn QuicDissector QuicFrames QuicTls QuicSession TlsRecords QuicPackets QuicBuildP QuicEpochP QuicCryptoP C17RoundP QuicShortP QuicLongPackets QuicLongP QuicInitialP.
+Require Import PyLib SuiteTypes Crypto KeySchedule QuicKeys QuicPn QuicDissector QuicFrames QuicTls QuicSession TlsRecords QuicPackets QuicBuildP QuicEpochP QuicCryptoP C17RoundP QuicShortP QuicLongPackets QuicLongP QuicInitialP QuicZeroRttP.
 Import ListNotations.
 Open Scope Z_scope.
 
@@ -147,3 +147,40 @@ Theorem C02_initial_packet_extracted : forall C, CryptoLaws C ->
     Ok ([ mk_long QInitial srv ts [first] version [len dcid] dcid [len scid] scid tlb token plb pnb ct [] ], rest).
 Proof. exact extract_initial. Qed.
 Print Assumptions C02_initial_packet_extracted.
+
+(* 0-RTT packets: the long header of a Handshake packet with type bits 01, protected with the CLIENT's early keys *)
+Theorem C02_zero_rtt_packet_extracted : forall C, CryptoLaws C ->
+  forall (chacha : bool) a (hp key iv : bytes) first (version dcid scid pnb pn8 payload d rest g : bytes) w ts (srv : bool) keys,
+  208 <= first < 224 -> len pnb = Z.land first 3 + 1 -> len version = 4 -> from_be version <> 0 -> bytes_ok version ->
+  len dcid < 256 -> len scid < 64 -> bytes_ok dcid -> bytes_ok scid -> bytes_ok pnb -> bytes_ok rest ->
+  wok w -> len pnb + len payload + 16 < 2 ^ (8 * w - 2) -> 4 <= len pnb + len payload ->
+  hp_client_early keys = Some hp ->
+  protect_handshake C chacha a hp key iv first version dcid scid pnb pn8 payload w = Ok d ->
+  (forall sample mask, (if chacha then c_chacha_mask C hp sample else c_ecb_enc C hp sample) = Ok mask -> 5 <= len mask /\ bytes_ok mask) ->
+  (forall nonce pt aad ct, c_aead_enc C a 16 key nonce pt aad = Ok ct -> bytes_ok ct) ->
+  let plb := enc_var (len pnb + len payload + 16) w in
+  exists ct, c_aead_enc C a 16 key (quic_nonce iv pn8) payload (([first] ++ version ++ [len dcid] ++ dcid ++ [len scid] ++ scid ++ plb) ++ pnb) = Ok ct /\
+  extract_inner C (d ++ rest) ts srv g keys chacha =
+    Ok ([ mk_long QZeroRtt srv ts [first] version [len dcid] dcid [len scid] scid [] [] plb pnb ct [] ], rest).
+Proof. exact extract_zero_rtt. Qed.
+Print Assumptions C02_zero_rtt_packet_extracted.
+
+(* ... and the datagram handed to the session that holds the client's early keys adds exactly the data of its STREAM frames *)
+Theorem C02_zero_rtt_datagram : forall C, CryptoLaws C -> forall keylog ftable (chacha : bool) a (hp key iv : bytes) first (version dcid scid pnb pn8 payload d g : bytes) w ts s s1 pns fs,
+  208 <= first < 224 -> len pnb = Z.land first 3 + 1 -> len version = 4 -> from_be version <> 0 -> bytes_ok version ->
+  len dcid < 256 -> len scid < 64 -> bytes_ok dcid -> bytes_ok scid -> bytes_ok pnb ->
+  wok w -> len pnb + len payload + 16 < 2 ^ (8 * w - 2) -> 4 <= len pnb + len payload ->
+  hp_client_early (qs_hp s) = Some hp ->
+  (match qt_ciphersuite (qs_tls s) with Some cs => bytes_eqb cs [0x13; 0x03] | None => false end) = chacha ->
+  protect_handshake C chacha a hp key iv first version dcid scid pnb pn8 payload w = Ok d ->
+  (forall sample mask, (if chacha then c_chacha_mask C hp sample else c_ecb_enc C hp sample) = Ok mask -> 5 <= len mask /\ bytes_ok mask) ->
+  (forall nonce pt aad ct, c_aead_enc C a 16 key nonce pt aad = Ok ct -> bytes_ok ct) ->
+  (forall ct, select_decryptor C s (mk_long QZeroRtt false ts [first] version [len dcid] dcid [len scid] scid [] [] (enc_var (len pnb + len payload + 16) w) pnb ct []) = (s1, Some (a, (key, iv)))) ->
+  get_full_packet_number (qs_pn s1) false SpApp pnb = Ok (pn8, pns) ->
+  parse_frames ftable payload = Ok fs -> forallb plain_frame fs = true ->
+  exists s', process_datagram C keylog ftable (S (length d)) s d ts false g = Ok s' /\
+             qs_output s' = qs_output s ++ flat_map (fun f => match f_cls f with
+                                                              | CStream => [ {| of_kind := OStream; of_data := nth 0 (f_datas f) []; of_ts := ts; of_isserver := false |} ]
+                                                              | _ => [] end) fs.
+Proof. exact zero_rtt_datagram. Qed.
+Print Assumptions C02_zero_rtt_datagram.
